@@ -1,5 +1,6 @@
 import SlogModel.Model.Cfg
 import SlogModel.Model.CfgSer
+import SlogModel.Model.CfgFile
 import SlogModel.Lemmas.XformTotal
 import SlogModel.Gen.Facts
 
@@ -421,5 +422,58 @@ example :
     verify demoSch (demoOut [.inline (b!"nope"), .copy]) = false ∧
       (construct demoSch (demoOut [.inline (b!"nope"), .copy])).toOption = none ∧
     verify demoSch (demoOut [.unspecified]) = false ∧ (construct demoSch (demoOut [.unspecified])).toOption = none := by decide
+
+
+/-! ### the head of the file: schema, orchestration keys and tag, metric keys (`Model/CfgFile.lean`) -/
+
+open CfgFile in
+theorem nodupB_append : ∀ (a b : List Bytes), nodupB a = true → nodupB b = true → (∀ k ∈ b, a.contains k = false) →
+    nodupB (a ++ b) = true
+  | [], b, _, hb, _ => by simpa using hb
+  | x :: a, b, ha, hb, hd => by
+    simp only [nodupB, Bool.and_eq_true, Bool.not_eq_true'] at ha
+    simp only [List.cons_append, nodupB, Bool.and_eq_true, Bool.not_eq_true']
+    refine ⟨?_, nodupB_append a b ha.2 hb (fun k hk => ?_)⟩
+    · have h1 : a.contains x = false := ha.1
+      have h2 : b.contains x = false := by
+        cases hbx : b.contains x with
+        | false => rfl
+        | true =>
+          have hm : x ∈ b := by simpa using hbx
+          have := hd x hm
+          simp at this
+      simp only [List.contains_eq_mem, List.mem_append, decide_eq_false_iff_not, not_or] at h1 h2 ⊢
+      exact ⟨h1, h2⟩
+    · have := hd k hk
+      simp only [List.contains_eq_mem, List.mem_cons, decide_eq_false_iff_not, not_or] at this ⊢
+      exact this.2
+
+open CfgFile in
+/-- **C16 (the head of the file).** A schema, orchestration section and metric-key list that `ParseConfigFile` accepts are
+instantiated without reaching `NewOrchestrator`'s `Panicf` sites (key locators, tag builder), `MustCreateFieldLocators` of
+the metric keys, or the Prometheus client's panic on a repeated label name (a key listed twice or in both lists). -/
+theorem C16_file_head_verify_sound (h : Head) (hv : verify h = true) : ∃ b, construct h = .ok b := by
+  simp only [verify, orchOK, metricOK, Bool.and_eq_true] at hv
+  obtain ⟨⟨_, ⟨⟨⟨⟨_, hk⟩, hkn⟩, _⟩, htag⟩⟩, ⟨⟨⟨_, hm⟩, hmn⟩, hdis⟩⟩ := hv
+  obtain ⟨kl, hkl⟩ := mapM_locate_some ⟨h.fields⟩ h.orchKeys hk
+  obtain ⟨ml, hml⟩ := mapM_locate_some ⟨h.fields⟩ h.metricKeys hm
+  have hnd : nodupB (h.orchKeys ++ h.metricKeys) = true := by
+    apply nodupB_append _ _ hkn hmn
+    intro k hk'
+    have := List.all_eq_true.mp hdis k hk'
+    simpa using this
+  exact ⟨{ keyLocators := kl, metricLocators := ml, labels := h.orchKeys ++ h.metricKeys }, by simp [construct, hkl, hml, htag, hnd]⟩
+
+open CfgFile in
+/-- what the checks rule out, concretely: a key listed twice, a key in both lists, a tag variable that is no key — each is
+rejected and each reaches a panic site when instantiated -/
+example :
+    let mk (ok mk' : List Bytes) (tp : Cfg.Tmpl) : Head :=
+      { fields := [b!"host", b!"app", b!"log"], maxFields := 5, orchKeys := ok, tag := b!"t", tagParts := tp, metricKeys := mk' }
+    verify (mk [b!"host"] [b!"app"] (some [.lit (b!"t."), .var (b!"host")])) = true ∧
+    verify (mk [b!"host", b!"host"] [b!"app"] (some [])) = false ∧ (construct (mk [b!"host", b!"host"] [b!"app"] (some []))).toOption.isNone = true ∧
+    verify (mk [b!"host"] [b!"host"] (some [])) = false ∧ (construct (mk [b!"host"] [b!"host"] (some []))).toOption.isNone = true ∧
+    verify (mk [b!"host"] [b!"app"] (some [.var (b!"app")])) = false ∧
+      (construct (mk [b!"host"] [b!"app"] (some [.var (b!"app")]))).toOption.isNone = true := by decide
 
 end C16
